@@ -33,10 +33,16 @@ Definition dec_inp (a b : Z) : inp :=
   else if a =? 5 then IRecvError else if a =? 6 then IPingreq else if a =? 7 then IPingresp
   else if a =? 8 then IOther else INoData.
 Definition dec_misc (a : Z) : misc := if a =? 0 then MFresh else if a =? 1 then MDue else MPingDue.
+(* up to a inputs packed into b: (code * 256 + argument) in base 4096, first input in the lowest digit *)
+Fixpoint dec_inps (n : nat) (z : Z) : list inp :=
+  match n with
+  | O => []
+  | S n' => dec_inp ((z mod 4096) / 256) (z mod 256) :: dec_inps n' (z / 4096)
+  end.
 Definition dec_top (k a b : Z) : topcall :=
   if k =? 0 then TConnect (z2b a) else if k =? 1 then TReconnect (z2b a) else if k =? 2 then TDisconnect
   else if k =? 3 then TPublish0 else if k =? 4 then TSubscribe else if k =? 5 then TLoopRead (dec_inp a b)
-  else if k =? 6 then TLoopWrite else TLoopMisc (dec_misc a).
+  else if k =? 6 then TLoopWrite else if k =? 8 then TLoopReadN (dec_inps (Z.to_nat a) b) else TLoopMisc (dec_misc a).
 
 (* [k; a; b; sched...(counted); 8 queues] *)
 Definition dec_op (l : list Z) : op * list Z :=
